@@ -1016,7 +1016,7 @@ Section Main.
     match k with KStruct _ | KMap => True | _ => props = [] /\ req = [] /\ ap = None end /\
     match k with KInt _ => True | _ => fmt = None end /\
     match k with
-    | KRef _ | KAny | KOne _ => False
+    | KRef _ | KAny | KOne _ | KOpt => False
     | KBool => tt = TBoolean
     | KStr | KStrC _ _ _ => tt = TString
     | KNull => tt = TNull
@@ -1067,25 +1067,29 @@ Section Main.
     exists nl k,
       classify ty fmt enum cst nv sv ik items ai mni mxi uq props req ap mnp mxp allo anyo oneo no ref dflt title = Some (nl, k)
       /\ cst = None /\ allo = None /\ anyo = None
-      /\ (match k with KOne _ => nl = false /\ exists bs, oneo = Some bs | _ => oneo = None end)
+      /\ (match k with KOne _ | KOpt => nl = false /\ exists bs, oneo = Some bs | _ => oneo = None end)
       /\ no = None.
   Proof.
     cbn [frag]. destruct (classify _ _ _ _ _ _ _ _ _ _ _ _ _ _ _ _ _ _ _ _ _ _ _ _) as [[nl k]|] eqn:Hc; [|discriminate].
     intros _. exists nl, k. split; [reflexivity|]. unfold classify in Hc.
     destruct oneo as [bs|].
     - destruct (only_one _ _ _ _ _ _ _ _ _ _ _ _ _ _ _ _ _ _ _ _ _ _ _) eqn:Ho; [|discriminate].
-      destruct (one_kind bs) as [tg|]; [|discriminate]. cbn [option_map] in Hc. injection Hc as <- <-.
-      unfold only_one in Ho. bool_facts. subst. repeat split; try reflexivity. exists bs. reflexivity.
+      unfold only_one in Ho. bool_facts. subst.
+      destruct (opt_shape bs) as [[|]|]; [| |discriminate].
+      + injection Hc as <- <-. repeat split; try reflexivity. exists bs. reflexivity.
+      + destruct (one_kind bs) as [tg|]; [|discriminate]. cbn [option_map] in Hc. injection Hc as <- <-.
+        repeat split; try reflexivity. exists bs. reflexivity.
     - destruct (no_extras cst ai mnp mxp allo anyo None no dflt title) eqn:Hne; [|discriminate].
       destruct (no_extras_inv _ _ _ _ _ _ _ _ _ _ Hne) as (-> & -> & -> & _ & ->).
-      assert (Hk : forall tg, k <> KOne tg).
-      { intros tg ->. cbn [negb] in Hc. destruct ty as [l|].
+      assert (Hk : match k with KOne _ | KOpt => False | _ => True end).
+      { cbn [negb] in Hc. destruct ty as [l|].
         - destruct (negb (is_none ref)); [discriminate|]. destruct (split_type l) as [[nl' tt]|]; [|discriminate].
           destruct (kind_of_type fmt enum nv sv ik items mni mxi uq props req ap tt) as [k'|] eqn:Hk;
             cbn [option_map] in Hc; [|discriminate]. injection Hc as _ ->.
-          apply kind_of_type_inv in Hk. destruct Hk as (_ & _ & _ & _ & _ & _ & _ & []).
-        - destruct (_ && _); [|discriminate]. destruct ref; discriminate. }
-      repeat split; try reflexivity. destruct k; try reflexivity. exfalso. eapply Hk. reflexivity.
+          apply kind_of_type_inv in Hk. destruct Hk as (_ & _ & _ & _ & _ & _ & _ & Hk).
+          destruct k; try exact I; contradiction.
+        - destruct (_ && _); [|discriminate]. destruct ref; injection Hc as _ <-; exact I. }
+      repeat split; try reflexivity. destruct k; try reflexivity; contradiction.
   Qed.
 
   Lemma is_one_none s : sch_one_of s = None -> is_one s = false.
@@ -1197,6 +1201,12 @@ Section Main.
   Definition frag_kind (k : kind) (items : list schema) (props : list (ustring * schema))
              (req : list ustring) (ap : option schema) (oneo : option (list schema)) : bool :=
     match k with
+    | KOpt =>
+        match oneo with
+        | Some (a :: b :: nil) =>
+            if nullish a then opt_arm_ok b && frag cls keys b else opt_arm_ok a && frag cls keys a
+        | _ => false
+        end
     | KOne tg =>
         match oneo with
         | Some bs =>
@@ -1230,6 +1240,11 @@ Section Main.
              (ap : option schema) (oneo : option (list schema)) : list ustring :=
     match k with
     | KOne tg => match oneo with Some bs => one_names tg nm' bs | None => [] end
+    | KOpt =>
+        match oneo with
+        | Some (a :: b :: nil) => if nullish a then names_of cls b (inner_name nm') else names_of cls a (inner_name nm')
+        | _ => []
+        end
     | KStruct _ => match type_name cls nm' with Some base => prop_names base props | None => [] end
     | KMap => match ap with Some vs => names_of cls vs (value_name nm') | None => [] end
     | KVec c => flat_map (fun it => names_of cls it (seq_item_name cls c nm')) items
@@ -1253,13 +1268,18 @@ Section Main.
     \/ (ty = None /\ nl = false /\ nv = numv_none /\ sv = strv_none /\ mni = None /\ mxi = None /\
         fmt = None /\ enum = None /\ ik = ItemsAbsent /\ items = [] /\ props = [] /\ req = [] /\ ap = None /\
         ((exists r, ref = Some r /\ k = KRef r) \/ (ref = None /\ k = KAny)
-         \/ (exists bs tg, oneo = Some bs /\ ref = None /\ k = KOne tg /\ one_kind bs = Some tg))).
+         \/ (exists bs, oneo = Some bs /\ ref = None /\
+                        ((exists tg, k = KOne tg /\ one_kind bs = Some tg) \/ (k = KOpt /\ opt_shape bs = Some true))))).
   Proof.
     unfold classify. destruct oneo as [bs|].
     { destruct (only_one _ _ _ _ _ _ _ _ _ _ _ _ _ _ _ _ _ _ _ _ _ _ _) eqn:Ho; [|discriminate].
-      destruct (one_kind bs) as [tg|] eqn:Hk; [|discriminate]. cbn [option_map]. intro H. injection H as <- <-.
-      unfold only_one in Ho. bool_facts. subst. right. repeat (split; [reflexivity|]).
-      right. right. exists bs, tg. repeat split; assumption || reflexivity. }
+      unfold only_one in Ho. bool_facts. subst.
+      destruct (opt_shape bs) as [[|]|] eqn:Hos; [| |discriminate].
+      - intro H. injection H as <- <-. right. repeat (split; [reflexivity|]).
+        right. right. exists bs. split; [reflexivity|]. split; [reflexivity|]. right. split; [reflexivity|exact Hos].
+      - destruct (one_kind bs) as [tg|] eqn:Hk; [|discriminate]. cbn [option_map]. intro H. injection H as <- <-.
+        right. repeat (split; [reflexivity|]).
+        right. right. exists bs. split; [reflexivity|]. split; [reflexivity|]. left. exists tg. split; [reflexivity|exact Hk]. }
     destruct (negb (no_extras _ _ _ _ _ _ _ _ _ _)); [discriminate|].
     destruct ty as [l|].
     - destruct ref as [r|]; [discriminate|]. cbn [is_none negb].
@@ -1701,7 +1721,18 @@ Section Main.
   Proof.
     intros Hfk HTi HTp HTa HTo0 Hshape Hnm. destruct (arms_props Tot oneo HTo0) as [HTo HToB].
     destruct (type_name_some nm Hnm) as (n & Hn).
-    destruct k as [| | | |mx mn pat|r|raws|deny| | |c|c|r| |tg]; cbn [conv_kind]; try discriminate.
+    destruct k as [| | | |mx mn pat|r|raws|deny| | |c|c|r| |tg|]; cbn [conv_kind]; try discriminate.
+    10: { (* KOpt: the arm under the inner name *)
+      cbn [frag_kind] in Hfk. destruct oneo as [[|a [|b [|]]]|]; try discriminate. cbn [OForall] in HToB.
+      assert (Hin : name_opt (inner_name nm) <> None).
+      { clear - Hnm. destruct nm; cbn [inner_name name_opt] in *; congruence. }
+      destruct (nullish a).
+      - apply andb_true_iff in Hfk. destruct Hfk as [_ Hfb].
+        destruct (cvf b (inner_name nm) s0) as [[te sa]|] eqn:Hc; [destruct (assign te sa); discriminate|].
+        exfalso. exact (Forall_inv (Forall_inv_tail HToB) Hfb _ _ Hin Hc).
+      - apply andb_true_iff in Hfk. destruct Hfk as [_ Hfa].
+        destruct (cvf a (inner_name nm) s0) as [[te sa]|] eqn:Hc; [destruct (assign te sa); discriminate|].
+        exfalso. exact (Forall_inv HToB Hfa _ _ Hin Hc). }
     9: { (* KOne *)
       cbn [frag_kind] in Hfk. destruct oneo as [bs|]; [|discriminate]. cbn [OForall] in HTo, HToB.
       apply andb_true_iff in Hfk. destruct Hfk as [Hfk Hpt].
@@ -1802,7 +1833,7 @@ Section Main.
       cbn [conv]. rewrite Hcl.
       assert (Hshape : match k with KVec _ => exists it, items = [it] | _ => True end).
       { destruct k; try exact I.
-        destruct Hcases as [(l & tt & _ & _ & _ & Hk)|(_ & _ & _ & _ & _ & _ & _ & _ & _ & _ & _ & _ & _ & [(r & _ & Hk)|[(_ & Hk)|(bs & tg & _ & _ & Hk & _)]])];
+        destruct Hcases as [(l & tt & _ & _ & _ & Hk)|(_ & _ & _ & _ & _ & _ & _ & _ & _ & _ & _ & _ & _ & [(r & _ & Hk)|[(_ & Hk)|(bs & _ & _ & [(tg & Hk & _)|(Hk & _)])]])];
           try discriminate Hk.
         apply kind_of_type_inv in Hk. destruct Hk as (_ & _ & _ & _ & _ & _ & _ & Hi). exact (proj2 (proj2 Hi)). }
       assert (Hin : name_opt (inner_name nm) <> None).
